@@ -122,6 +122,8 @@ def scenarios(ctx):
         out.append(base_sc(comp=ext, stem=c08.LONG_STEMS[i % len(c08.LONG_STEMS)], dir="logs",
                            payload=payloads[i % 4], ops=[W(), W(1), W(), S()]))
     out += c08.chdir_scenarios(["gz", "tar", "zip"])
+    tail = byte_scenarios(ctx) + c08.hole_scenarios(ctx.quick, ctx.rng.fork("c18-holes"),
+                                                   comps=(("tar.gz",) if ctx.quick else ("bz2", "tar.gz", "zip")))
     out.append(base_sc(comp="call", ops=[I(), W(), W(1), W(), S()]))
     out.append(base_sc(comp="call", rot=False, ops=[W(), S()]))
     out.append(base_sc(comp="call", timed=True, ops=[W(0, 1), W(1, 2), W(1, 2), S(2)]))
@@ -138,6 +140,28 @@ def scenarios(ctx):
     if ctx.quick:
         # quick tier: every format once with rotation, every second one at stop, plus the random ones
         out = [sc for j, sc in enumerate(out) if j >= 18 or j % 2 == 0 or j % 4 == 1]
+    return out + c08.with_names(tail, shift=5)
+
+
+def byte_scenarios(ctx):
+    """"exactly the bytes of the closed file": contents with CR LF, lone CR, NUL and other control characters, and
+    bytes >= 0x80 that are not valid UTF-8, under sink encodings other than UTF-8 (utf-16 with BOM, utf-16-le,
+    latin-1), for EVERY format; the archive is compared byte for byte with the closed file at the moment the source
+    is removed (monitor `archive_roundtrip`).  Quick: two combinations per format, thorough: all six."""
+    combos = [("ctl", "utf8"), ("latin", "latin-1"), ("ctl", "utf-16"), ("latin", "utf-16"), ("ctl", "latin-1"),
+              ("ctl", "utf-16-le")]
+    out = []
+    for i, ext in enumerate(CEXTS):
+        pick = combos if not ctx.quick else [combos[i % 6], combos[(i + 1 + i // 6) % 6]]
+        for j, (payload, encoding) in enumerate(pick):
+            sc = base_sc(comp=ext, payload=payload, encoding=encoding, ops=[W(), W(), W(1), W(), S()],
+                         rot=(j % 2 == 0))
+            if not sc["rot"]:
+                sc["ops"] = [W(), W(), W(), S()]
+            # all of them fault-free; under every single fault: one zip scenario (quick) / every sixth one (thorough)
+            if (ext != "zip" or j != 0) if ctx.quick else ((i + j) % 6 != 2):
+                sc["nofaults"] = True
+            out.append(sc)
     return out
 
 
